@@ -32,28 +32,66 @@ Proof.
 Qed.
 Print Assumptions C03_labels.
 
+(* ---- numpy's common type of two dtypes, as the model has it (np.promote_types, numpy 2.x) *)
+Example C03_join_is_numpys :
+  map (fun a => map (join a) [U8; U16; U32; U64; F16; F32; F64]) [U8; U16; U32; U64; F16; F32; F64] =
+  [ [U8;  U16; U32; U64; F16; F32; F64];
+    [U16; U16; U32; U64; F32; F32; F64];
+    [U32; U32; U32; U64; F64; F64; F64];
+    [U64; U64; U64; U64; F64; F64; F64];
+    [F16; F32; F64; F64; F16; F32; F64];
+    [F32; F32; F64; F64; F32; F32; F64];
+    [F64; F64; F64; F64; F64; F64; F64] ].
+Proof. vm_compute. reflexivity. Qed.
+
+(* ---- one variable, one dtype: the conversion of every slice of a variable to the common type of its slices
+   changes no label, no value and no shape; the common type is at least as wide as the type of every slice *)
+Theorem C03_promotion_keeps_values : forall (d : dataset) (b : bucket),
+  map fst (promote d) = map fst d /\
+  map (fun ls => (fst ls, option_map a_vals (get (snd ls) b), option_map a_shape (get (snd ls) b))) (promote d)
+    = map (fun ls => (fst ls, option_map a_vals (get (snd ls) b), option_map a_shape (get (snd ls) b))) d /\
+  map (fun ls => option_map a_dt (get (snd ls) b)) (promote d)
+    = map (fun ls => option_map (fun _ => common b d) (get (snd ls) b)) d /\
+  (forall ls a, In ls d -> get (snd ls) b = Some a -> dtype_le (a_dt a) (common b d) = true) /\
+  ((forall b', uniform b' d) -> promote d = d).
+Proof.
+  intros d b. split; [apply promote_labels|]. split; [apply promote_values|]. split; [apply promote_dtypes|].
+  split; [intros ls a; apply common_upper|apply promote_uniform].
+Qed.
+Print Assumptions C03_promotion_keeps_values.
+
 (* ---- slices: for every program, every schedule, every start time, both layouts, debug on/off: the bucket
    dataset is, slice for slice, (start + t_i, what the detector held at the end of step i) -- one slice per
-   readout, in order.  Hypotheses on the tables: every read-out that does not copy belongs to a container that
-   gets a new buffer at each reset (slices_safe), the label is the absolute time, every variable is read out
-   of the container of the same name; on the program: the dtype restoration leaves the images alone (see
-   C03_image_exact). *)
+   readout, in order, every value and shape as held; the dtypes may DIFFER from step to step (float16/32/64 for
+   photon, pixel, signal; uint8..64 for the image): each variable then has the common type of its slices, which
+   holds every value (C03_promotion_keeps_values), and when the dtypes do not differ the dataset is exactly the list
+   of the per-step read-outs.  Hypotheses on the tables: every read-out that does not copy belongs to a container
+   that gets a new buffer at each reset (slices_safe), the label is the absolute time, every variable is read out
+   of the container of the same name; on the program: the image is initialised in no step or in every step (with
+   any unsigned types, any values). *)
 Theorem C03_slices :
   forall (Scene Data : Type) (empty_scene : Scene) (scene_is_empty : Scene -> bool) (tbl : tables)
          (c : config Scene Data) (d_init : det Scene Data),
   slices_safe tbl -> tb_label tbl = LAbsolute -> exports_all tbl ->
-  image_stable (map view (ends_of empty_scene c d_init)) ->
+  image_regular (map view (ends_of empty_scene c d_init)) ->
   let t := exposure empty_scene scene_is_empty tbl c d_init in
-  t_buckets t = combine (map (Z.add (c_start c)) (c_times c)) (map view (ends_of empty_scene c d_init)) /\
+  let held := combine (map (Z.add (c_start c)) (c_times c)) (map view (ends_of empty_scene c d_init)) in
+  t_buckets t = promote held /\
   List.length (t_buckets t) = List.length (c_times c) /\
-  forall b, bucket_slices (t_buckets t) b =
-    combine (map (Z.add (c_start c)) (c_times c))
-            (map (fun d => get (view d) b) (ends_of empty_scene c d_init)).
+  (forall b, map (fun ls => (fst ls, option_map a_vals (get (snd ls) b), option_map a_shape (get (snd ls) b))) (t_buckets t)
+             = map (fun ls => (fst ls, option_map a_vals (get (snd ls) b), option_map a_shape (get (snd ls) b))) held) /\
+  ((forall b, uniform b held) ->
+   t_buckets t = held /\
+   forall b, bucket_slices (t_buckets t) b =
+     combine (map (Z.add (c_start c)) (c_times c))
+             (map (fun d => get (view d) b) (ends_of empty_scene c d_init))).
 Proof.
   intros. destruct (slices_faithful empty_scene scene_is_empty tbl c d_init H H1 H2) as [Hb Hl].
-  rewrite (labels_absolute tbl H0 c) in Hb.
-  split; [exact Hb|]. split; [exact Hl|].
-  intros b. unfold t. rewrite Hb. rewrite bucket_slices_combine, map_map. reflexivity.
+  rewrite (labels_absolute tbl H0 c) in Hb. fold held in Hb.
+  split; [exact Hb|]. split; [exact Hl|]. split.
+  - intros b. unfold t. rewrite Hb. apply promote_values.
+  - intros Hu. assert (E : t_buckets t = held) by (unfold t; rewrite Hb; apply promote_uniform; exact Hu).
+    split; [exact E|]. intros b. rewrite E. unfold held. rewrite bucket_slices_combine, map_map. reflexivity.
 Qed.
 Print Assumptions C03_slices.
 
@@ -67,17 +105,11 @@ Theorem C03_view_keeps_values : forall s b,
 Proof. exact extract_values. Qed.
 Print Assumptions C03_view_keeps_values.
 
-(* ---- the image hypothesis holds when the image is initialised in no step, or in every step with one
-   dtype -- whatever the values (no bit budget any more: the slices never leave their integer dtype) *)
-Theorem C03_image_exact : forall snaps, image_uniform snaps -> image_stable snaps.
-Proof. exact uniform_image_stable. Qed.
-Print Assumptions C03_image_exact.
-
 (* ---- the image keeps the unsigned type the models wrote (no hypothesis on the values) *)
 Theorem C03_image_dtype :
   forall (Scene Data : Type) (empty_scene : Scene) (scene_is_empty : Scene -> bool) (tbl : tables)
          (c : config Scene Data) (d_init : det Scene Data) (t_ : dtype),
-  slices_safe tbl -> exports_all tbl ->
+  slices_safe tbl -> exports_all tbl -> is_unsigned t_ = true ->
   Forall (fun d => image_has_dtype t_ (d_snap d)) (ends_of empty_scene c d_init) ->
   Forall (fun ls => image_has_dtype t_ (snd ls)) (t_buckets (exposure empty_scene scene_is_empty tbl c d_init)).
 Proof. exact @image_dtype_kept. Qed.
@@ -94,10 +126,45 @@ Theorem C03_slices_u64 :
   (forall x, In x xs -> exists v, 0 <= v < 2 ^ 64 /\ snd x = u64_img v) ->
   assemble xs = xs.
 Proof.
-  intros xs _ H. apply assemble_stable. intros x y Hx Hy.
-  destruct (H x Hx) as [v [_ Ex]]. destruct (H y Hy) as [w [_ Ey]]. rewrite Ex, Ey. reflexivity.
+  intros xs _ H. rewrite assemble_regular.
+  - apply promote_uniform. intros b. destruct b; try (left; intros ls Hls; destruct (H ls Hls) as [v [_ E]]; rewrite E; reflexivity).
+    right. exists U64. intros ls Hls. destruct (H ls Hls) as [v [_ E]]. rewrite E. eexists. split; reflexivity.
+  - right. intros s Hs. apply in_map_iff in Hs. destruct Hs as [ls [<- Hls]].
+    destruct (H ls Hls) as [v [_ E]]. rewrite E. eexists. split; reflexivity.
 Qed.
 Print Assumptions C03_slices_u64.
+
+(* ---- an image whose unsigned type differs between the readouts (full statement: refuted for the tree before the
+   repair of C03-image-narrowing, where every earlier slice was cast to the type of the LAST image): every slice keeps
+   its values, the variable has the widest of the types *)
+Theorem C03_image_types_may_differ :
+  forall xs : list slice, image_regular (map snd xs) ->
+  assemble xs = promote xs /\
+  map (fun ls => (fst ls, option_map a_vals (s_image (snd ls)))) (assemble xs)
+    = map (fun ls => (fst ls, option_map a_vals (s_image (snd ls)))) xs /\
+  forall ls a, In ls xs -> s_image (snd ls) = Some a -> dtype_le (a_dt a) (common Image xs) = true.
+Proof.
+  intros xs H. split; [apply assemble_regular; exact H|]. split.
+  - rewrite (assemble_regular xs H). pose proof (promote_values xs Image) as P.
+    apply (f_equal (map (fun t : Z * option (list Z) * option (list Z) => (fst (fst t), snd (fst t))))) in P.
+    rewrite !map_map in P. exact P.
+  - intros ls a Hin Hs. apply (common_upper Image xs ls a Hin Hs).
+Qed.
+Print Assumptions C03_image_types_may_differ.
+
+(* ---- row and column labels: when every read-out SETS the y / x coordinates to the index ranges, the bucket node is
+   labelled 0..rows-1 / 0..cols-1 for every program -- whatever coordinates the photon cubes handed to the container
+   carry -- and no variable is ever re-aligned (the only other case: no variable at all in any step) *)
+Theorem C03_coords :
+  forall (Scene Data : Type) (empty_scene : Scene) (scene_is_empty : Scene -> bool) (tbl : tables)
+         (c : config Scene Data) (d_init : det Scene Data),
+  relabels_all tbl ->
+  let t := exposure empty_scene scene_is_empty tbl c d_init in
+  t_coords t = Some (range0 (nth 0 (c_shape c) 0), range0 (nth 1 (c_shape c) 0)) \/
+  (t_coords t = Some ([], []) /\
+   forall d vs, In d (ends_of empty_scene c d_init) -> In vs (tb_exported tbl) -> get (view d) (snd vs) = None).
+Proof. intros. apply coords_faithful. assumption. Qed.
+Print Assumptions C03_coords.
 
 (* ---- both layouts carry the same values; the layout only chooses the path of the bucket node (a
    non-empty scene forces the hierarchical one) *)
@@ -196,19 +263,37 @@ Proof. intros [|] [|]; vm_compute; reflexivity. Qed.
 Theorem C03_slices_as_coded :
   forall (Scene Data : Type) (empty_scene : Scene) (scene_is_empty : Scene -> bool)
          (c : config Scene Data) (d_init : det Scene Data),
-  image_stable (map view (ends_of empty_scene c d_init)) ->
+  image_regular (map view (ends_of empty_scene c d_init)) ->
   let t := exposure empty_scene scene_is_empty src_tables c d_init in
-  t_buckets t = combine (map (Z.add (c_start c)) (c_times c)) (map view (ends_of empty_scene c d_init)) /\
+  let held := combine (map (Z.add (c_start c)) (c_times c)) (map view (ends_of empty_scene c d_init)) in
+  t_buckets t = promote held /\
   List.length (t_buckets t) = List.length (c_times c) /\
-  forall b, bucket_slices (t_buckets t) b =
-    combine (map (Z.add (c_start c)) (c_times c))
-            (map (fun d => get (view d) b) (ends_of empty_scene c d_init)).
+  (forall b, map (fun ls => (fst ls, option_map a_vals (get (snd ls) b), option_map a_shape (get (snd ls) b))) (t_buckets t)
+             = map (fun ls => (fst ls, option_map a_vals (get (snd ls) b), option_map a_shape (get (snd ls) b))) held) /\
+  ((forall b, uniform b held) ->
+   t_buckets t = held /\
+   forall b, bucket_slices (t_buckets t) b =
+     combine (map (Z.add (c_start c)) (c_times c))
+             (map (fun d => get (view d) b) (ends_of empty_scene c d_init))).
 Proof.
   intros Scene Data empty_scene scene_is_empty c d_init.
   destruct (tables_ok_props src_tables C03_source_tables) as (_ & Hs & Hl & He & _).
   apply C03_slices; assumption.
 Qed.
 Print Assumptions C03_slices_as_coded.
+
+Theorem C03_coords_as_coded :
+  forall (Scene Data : Type) (empty_scene : Scene) (scene_is_empty : Scene -> bool)
+         (c : config Scene Data) (d_init : det Scene Data),
+  let t := exposure empty_scene scene_is_empty src_tables c d_init in
+  t_coords t = Some (range0 (nth 0 (c_shape c) 0), range0 (nth 1 (c_shape c) 0)) \/
+  (t_coords t = Some ([], []) /\
+   forall d vs, In d (ends_of empty_scene c d_init) -> In vs (tb_exported src_tables) -> get (view d) (snd vs) = None).
+Proof.
+  intros. destruct (tables_ok_props src_tables C03_source_tables) as (_ & _ & _ & _ & _ & Hr).
+  apply C03_coords. exact Hr.
+Qed.
+Print Assumptions C03_coords_as_coded.
 
 Theorem C03_debug_nodes_as_coded :
   forall (Scene Data : Type) (empty_scene : Scene) (c : config Scene Data) (n i : nat) (d : det Scene Data),
@@ -225,7 +310,8 @@ Print Assumptions C03_debug_nodes_as_coded.
    (3) a pixel array that survives the reset (non-destructive readout) and is added to in place at step 2:
        the FIRST slice of the result follows it. *)
 Definition no_copy_of (k : ckind) : tables :=
-  {| tb_copies := fun k' => match k, k' with
+  {| tb_relabel := fun _ => true;
+     tb_copies := fun k' => match k, k' with
                             | KPhoton2, KPhoton2 | KPhoton3, KPhoton3 | KCharge, KCharge | KPixel, KPixel
                             | KSignal, KSignal | KImage, KImage => false
                             | _, _ => true
@@ -234,7 +320,8 @@ Definition no_copy_of (k : ckind) : tables :=
      tb_skip_zero := fun b => bucket_eqb b Charge |}.
 
 Definition wr (b : bucket) (waves : Z) (m : wmode) (ps : list Z) : action :=
-  AWrite {| w_bucket := b; w_dt := F64; w_waves := waves; w_mode := m; w_per_step := ps |}.
+  AWrite {| w_bucket := b; w_dt := F64; w_dts := []; w_waves := waves; w_ylab := None; w_xlab := None; w_mode := m;
+            w_per_step := ps |}.
 
 Definition alias_models (b : bucket) (waves : Z) : list pmodel :=
   [ {| pm_group := "charge_generation"; pm_name := "c1"; pm_actions := [wr b waves WIAdd [5; 7]] |};
@@ -272,14 +359,17 @@ Proof. vm_compute. repeat split; reflexivity. Qed.
    C03-debug-reset-attribution: the reset of `pixel` used to be credited to it) *)
 Definition ex_models : list pmodel :=
   [ {| pm_group := "photon_collection"; pm_name := "wp";
-       pm_actions := [AWrite {| w_bucket := Photon; w_dt := F32; w_waves := 2; w_mode := WAssign; w_per_step := [1; 20; 40] |}] |};
+       pm_actions := [AWrite {| w_bucket := Photon; w_dt := F32; w_dts := []; w_waves := 2; w_ylab := Some [5]; w_xlab := None;
+                                w_mode := WAssign; w_per_step := [1; 20; 40] |}] |};
     {| pm_group := "charge_collection"; pm_name := "wx";
-       pm_actions := [AWrite {| w_bucket := Pixel; w_dt := F64; w_waves := 0; w_mode := WAssign; w_per_step := [3; 9; 27] |}] |};
+       pm_actions := [AWrite {| w_bucket := Pixel; w_dt := F64; w_dts := [F64; F32; F16]; w_waves := 0; w_ylab := None;
+                                w_xlab := None; w_mode := WAssign; w_per_step := [2 ^ 24 + 2; 2050; 27] |}] |};
     {| pm_group := "charge_collection"; pm_name := "wx2";
-       pm_actions := [AWrite {| w_bucket := Pixel; w_dt := F64; w_waves := 0; w_mode := WIAdd; w_per_step := [1; 1; 1] |}] |};
+       pm_actions := [AWrite {| w_bucket := Pixel; w_dt := F64; w_dts := []; w_waves := 0; w_ylab := None; w_xlab := None;
+                                w_mode := WIAdd; w_per_step := [1; 1; 1] |}] |};
     {| pm_group := "readout_electronics"; pm_name := "wi";
-       pm_actions := [AWrite {| w_bucket := Image; w_dt := U64; w_waves := 0; w_mode := WAssign;
-                                w_per_step := [2 ^ 53 + 1; 200; 300] |};
+       pm_actions := [AWrite {| w_bucket := Image; w_dt := U64; w_dts := [U64; U8; U16]; w_waves := 0; w_ylab := None;
+                                w_xlab := None; w_mode := WAssign; w_per_step := [2 ^ 53 + 1; 200; 300] |};
                       AData "/probe/k" [7; 8; 9]] |} ].
 
 Definition ex_config (l : layout) (dbg nd : bool) : config payload payload :=
@@ -287,26 +377,58 @@ Definition ex_config (l : layout) (dbg nd : bool) : config payload payload :=
      c_debug := dbg; c_models := map (mdl_of [1; 2]) ex_models |}.
 
 Example C03_hyps_satisfiable :
-  image_uniform (map view (ends_of [] (ex_config Flat true false) pdet0)) /\
+  image_regular (map view (ends_of [] (ex_config Flat true false) pdet0)) /\
   let t := exposure [] payload_is_empty tables_as_coded (ex_config Flat true false) pdet0 in
+  (* the image is uint64, uint8, uint16 at the three readouts: the variable is uint64 and every value is kept *)
   bucket_slices (t_buckets t) Image =
     [(12, Some {| a_dt := U64; a_shape := [1; 2]; a_vals := [2 ^ 53 + 1; 2 ^ 53 + 2] |});
      (20, Some {| a_dt := U64; a_shape := [1; 2]; a_vals := [200; 201] |});
      (36, Some {| a_dt := U64; a_shape := [1; 2]; a_vals := [300; 301] |})] /\
+  (* the pixel array is float64, float32, float16: the variable is float64; 2^24 + 3 (no float32 value) and 2051 (no
+     float16 value) survive *)
+  bucket_slices (t_buckets t) Pixel =
+    [(12, Some {| a_dt := F64; a_shape := [1; 2]; a_vals := [2 ^ 24 + 3; 2 ^ 24 + 5] |});
+     (20, Some {| a_dt := F64; a_shape := [1; 2]; a_vals := [2051; 2053] |});
+     (36, Some {| a_dt := F64; a_shape := [1; 2]; a_vals := [28; 30] |})] /\
+  (* the photon cube carries its own y labels [5]: the result is labelled with the row / column indices *)
+  t_coords t = Some ([0], [0; 1]) /\
   t_data t = [("/probe/k"%string, [9])] /\
   option_map (map (fun n => map fst (n_vars n))) (t_inter t) =
     Some [[Photon]; [Pixel]; [Pixel]; [Image]; [Photon]; [Pixel]; [Pixel]; [Image]; [Photon]; [Pixel]; [Pixel]; [Image]].
 Proof.
   split.
-  - right. exists U64. intros s Hs. vm_compute in Hs.
+  - right. intros s Hs. vm_compute in Hs.
     repeat (destruct Hs as [<-|Hs]; [eexists; split; reflexivity|]). contradiction.
   - vm_compute. repeat split; reflexivity.
 Qed.
 
-(* an image whose dtype changes between readouts is cast to the dtype of the last one (one variable has one
-   dtype): the hypothesis of C03_image_exact is needed *)
+(* an image whose dtype changes between readouts: the variable gets the wider type, nothing is lost (before the repair
+   of C03-image-narrowing the earlier slice was cast to the type of the last image: 70000 came back as 4464) *)
 Example C03_image_dtype_change :
   let img t v := {| s_photon := None; s_charge := None; s_pixel := None; s_signal := None;
                     s_image := Some {| a_dt := t; a_shape := [1; 1]; a_vals := [v] |} |} in
-  assemble [(1, img U32 70000); (2, img U16 6)] = [(1, img U16 4464); (2, img U16 6)].
-Proof. vm_compute. reflexivity. Qed.
+  assemble [(1, img U32 70000); (2, img U16 6)] = [(1, img U32 70000); (2, img U32 6)] /\
+  a_vals (cast_to U16 {| a_dt := U32; a_shape := [1; 1]; a_vals := [70000] |}) = [4464].
+Proof. vm_compute. split; reflexivity. Qed.
+
+(* ---- the read-out of a 3-D photon cube must SET the y / x coordinates: if it only added them when the cube has
+   none, a cube labelled [1; 2] (pixel centres, 1-based indices, ...) would label the photon variable [1; 2] while the
+   charge is labelled [0; 1]: the variables are re-aligned (NaN-filled) -- the model has no result for that run *)
+Definition keep_cube_coords : tables :=
+  {| tb_relabel := fun k => match k with KPhoton3 => false | _ => true end;
+     tb_copies := fun _ => true; tb_label := LAbsolute; tb_exported := id_pairs; tb_visible := id_pairs;
+     tb_skip_zero := fun b => bucket_eqb b Charge |}.
+
+Definition cube_config (ylab : option (list Z)) : config payload payload :=
+  {| c_shape := [2; 1]; c_start := 0; c_times := [8; 16]; c_nondestr := false; c_layout := Flat; c_debug := false;
+     c_models := map (mdl_of [2; 1])
+       [ {| pm_group := "photon_collection"; pm_name := "wp";
+            pm_actions := [AWrite {| w_bucket := Photon; w_dt := F64; w_dts := []; w_waves := 1; w_ylab := ylab;
+                                     w_xlab := None; w_mode := WAssign; w_per_step := [1; 20] |}] |} ] |}.
+
+Example C03_relabel_is_needed :
+  t_coords (exposure [] payload_is_empty keep_cube_coords (cube_config (Some [1; 2])) pdet0) = None /\
+  t_coords (exposure [] payload_is_empty keep_cube_coords (cube_config (Some [0; 1])) pdet0) = Some ([0; 1], [0]) /\
+  t_coords (exposure [] payload_is_empty keep_cube_coords (cube_config None) pdet0) = Some ([0; 1], [0]) /\
+  t_coords (exposure [] payload_is_empty tables_as_coded (cube_config (Some [1; 2])) pdet0) = Some ([0; 1], [0]).
+Proof. vm_compute. repeat split; reflexivity. Qed.
